@@ -22,7 +22,7 @@ FAMILIES_THOROUGH = (("eager", 2), ("batched", 4), ("bursty", 2), ("split", 4))
 
 
 def budget(tier):
-    return {"quick": {"runs": 6000, "wall": 150}, "thorough": {"runs": 400000, "wall": 1500}}[tier]
+    return {"quick": {"runs": 6000, "wall": 150}, "thorough": {"runs": 72000, "wall": 900}}[tier]
 
 
 def _oracle(ex):
